@@ -437,6 +437,41 @@ def dynamo_cases(rep: Report, rng: random.Random, kinds: List[str]) -> None:
         rep.violation("simulate_format(nn.Linear(...)) (root module itself a torch.nn layer) is not quantised", {"module": "nn.Linear as root"}, key="root_nn_layer")
 
 
+def format_round_trip(rep: Report) -> None:
+    """spec/Format.tla: every constructible FPFormat survives format_to_tuple / tuple_to_format unchanged, and the
+    construction rules (defaulting of srbits, rejections) are the spec's."""
+    from unit_scaling.formats import FPFormat, format_to_tuple, tuple_to_format
+
+    res = common.run_tlc("Format_MC", "Format_MC.cfg", coverage=True, timeout=300, tag="fmtmc")
+    common.tlc_must_pass(res, "Format_MC")
+    rep.add_tlc(res)
+    for leg in ("tuple_drops_rounding", "tuple_drops_srbits"):
+        r = common.run_tlc("Format_MC", f"Format_MC_{leg}.cfg", timeout=300, tag="fmtleg")
+        common.tlc_must_fail(r, f"Format Legacy={leg}", "RoundTripOK")
+        rep.extra.setdefault("l2_refuted_deviations", []).append({"legacy": leg, "violated": r.violated_invariant})
+    fmts = res.printed("FMT")
+    if len(fmts) < 1000:
+        raise common.MachineryError(f"Format_MC emitted only {len(fmts)} formats")
+    for rec in fmts:
+        rep.case(("fmt", rec["E"], rec["M"], rec["r"], rec["s"]), nontrivial=rec["r"] == "nearest" or rec["s"] != 23 - rec["M"])
+        try:
+            f = FPFormat(rec["E"], rec["M"], rec["r"], rec["s"])
+        except AssertionError as ex:
+            rep.violation(f"FPFormat({rec['E']}, {rec['M']}, {rec['r']!r}, {rec['s']}) rejected: {ex}", {"format": rec}, key="format_rejected")
+            continue
+        g = tuple_to_format(format_to_tuple(f))
+        same = (g.exponent_bits, g.mantissa_bits, g.rounding, g.srbits) == (f.exponent_bits, f.mantissa_bits, f.rounding, f.srbits) == (rec["E"], rec["M"], rec["r"], rec["s"])
+        if not same:
+            rep.violation(f"format tuple round trip changes FPFormat({rec['E']}, {rec['M']}, {rec['r']!r}, srbits={rec['s']}) into ({g.exponent_bits}, {g.mantissa_bits}, {g.rounding!r}, srbits={g.srbits})",
+                          {"format": rec}, key=f"format_round_trip:{'rounding' if g.rounding != f.rounding else 'srbits'}")
+    for bad in ((1, 3, "nearest", 0), (4, 3, "nearest", 2)):
+        try:
+            FPFormat(*bad)
+            rep.violation(f"FPFormat{bad} accepted (spec: rejected)", {"format": list(bad)}, key="format_accepts_invalid")
+        except AssertionError:
+            pass
+
+
 def run(rep: Report, tier: str) -> None:
     rng = random.Random(common.seed() * 61 + 18)
     torch.manual_seed(common.seed())
@@ -449,6 +484,7 @@ def run(rep: Report, tier: str) -> None:
         r = common.run_tlc("SimFormat_MC", f"SimFormat_MC_{leg}.cfg", timeout=300, tag="sfleg")
         common.tlc_must_fail(r, f"SimFormat Legacy={leg}")
         rep.extra.setdefault("l2_refuted_deviations", []).append({"legacy": leg, "violated": r.violated_invariant})
+    format_round_trip(rep)
     straight_through(rep, rng, 200 if quick else 2000)
     graph_cases(rep, rng, 150 if quick else 2000)
     dynamo_cases(rep, rng, ["nearest", "srbits"] if quick else FORMAT_KINDS)
